@@ -110,6 +110,9 @@ func TestVerifReplay(t *testing.T) {
 			bad = append(bad, "len")
 		}
 		b := make([]byte, want)
+		for i := range b {
+			b[i] = 0xa5
+		}
 		n, err := msg.Encode(b)
 		if !(b[0] == 0x34 && b[1] == msg.Type) {
 			bad = append(bad, "fixed")
